@@ -11,3 +11,4 @@ import VibeProof.Props.C30
 #print axioms VibeProof.C30.C30_bool_binds_as_bool
 #print axioms VibeProof.C30.C30_int_roundtrip
 #print axioms VibeProof.C30.C30_smallint_out_of_range
+#print axioms VibeProof.C30.C30_scan_quote
